@@ -313,6 +313,8 @@ def others(ctx, n):
         for _ in range(int(rng.integers(0, 3))):
             occ[int(rng.integers(0, d))] += 1
         gs = [make_gate(pq, rng, d, PA) for _ in range(int(rng.integers(1, 5)))]
+        if d >= 3 and rng.random() < 0.6:
+            gs.append(("InterferometerFull", pq.Interferometer(haar(rng, d)), tuple(range(d))))
         desc = {"simulator": "Passive", "d": d, "occ": occ, "gates": [(k, {p: (v if isinstance(v, float) else str(np.asarray(v).tolist())) for p, v in g.params.items()}, m) for k, g, m in gs]}
         prog = lambda: pq.Program(instructions=[pq.StateVector(tuple(occ)).on_modes(*range(d))] + [clone(g).on_modes(*m) for _, g, m in gs])
         ctx.count(("passive", it), nontrivial=sum(occ) >= 2)
@@ -323,6 +325,15 @@ def others(ctx, n):
             e = float(np.abs(np.asarray(a.fock_probabilities) - np.asarray(b.fock_probabilities)).max())
             if e > 1e-8:
                 fails.append(("state:Passive:jax", f"Passive Fock probabilities with JAX differ from NumPy by {e:.2e}", desc))
+            # single-outcome probabilities go through connector.permanent(U, rows=output, cols=input): every output pattern
+            if sum(occ) >= 1:
+                import itertools as _it
+                outs = [o for o in _it.product(range(sum(occ) + 1), repeat=d) if sum(o) == sum(occ)][:12]
+                pa = np.array([float(a.get_particle_detection_probability(o)) for o in outs])
+                pb = np.array([float(b.get_particle_detection_probability(o)) for o in outs])
+                e2 = float(np.abs(pa - pb).max())
+                if e2 > 1e-8:
+                    fails.append(("detection-probability:Passive:jax", f"Passive get_particle_detection_probability with JAX differs from NumPy by {e2:.2e} (output {outs[int(np.abs(pa - pb).argmax())]})", desc))
         except Exception as e:
             fails.append((f"raise:Passive:jax:{type(e).__name__}", f"{type(e).__name__}: {str(e)[:140]}", desc))
         # fermionic
